@@ -2,6 +2,7 @@
 // Avoid::Router, compared after every transaction with a freshly built router holding the same scene.
 #include "libavoid/libavoid.h"
 #include <cmath>
+#include <cstdlib>
 #include <array>
 #include <vector>
 #include "mcx/mcx.h"
@@ -26,6 +27,8 @@ static Avoid::Router *mk(bool ortho, bool transactions) {
     Avoid::Router *r = new Avoid::Router(ortho ? Avoid::OrthogonalRouting : Avoid::PolyLineRouting);
     r->setRoutingParameter(Avoid::segmentPenalty, ortho ? 20 : 0);
     if (g_buf) r->setRoutingParameter(Avoid::shapeBufferDistance, g_buf * S / 2.0);
+    if (getenv("VERIF_PROBE_NOINVIS")) r->InvisibilityGrph = false;   // probe only (undocumented public flag)
+    if (getenv("VERIF_PROBE_NAIVE")) r->UseLeesAlgorithm = false;
     r->setTransactionUse(transactions);
     return r;
 }
